@@ -224,3 +224,53 @@ var Harnesses = map[string]func(){
 	"HarnessFS":       HarnessFS,
 	"HarnessMetaInit": HarnessMetaInit,
 }
+
+// HarnessStableBolt (C08, production metadata store): BoltMetaDB over the
+// engine's bbolt model. SetStable puts exactly that key/value in bucket
+// "stable" and commits; GetStable returns the latest value and hands out a copy
+// (the slice bbolt returns is only valid inside the transaction): scribbling
+// over a returned value must not change what the store holds.
+func HarnessStableBolt() {
+	dir := vrt.TempDir()
+	var db metadb.BoltMetaDB
+	_, err := db.Load(dir)
+	vrt.Assert("C08.bolt-load-ok", err == nil)
+	if err != nil {
+		return
+	}
+	val := vrt.Bytes("val", 1+vrt.Choice("vlen", 3))
+	n0 := len(vrt.Events())
+	vrt.Assert("C08.bolt-set-ok", db.SetStable([]byte("k"), val) == nil)
+	if vrt.Symbolic() {
+		committed := false
+		for _, e := range vrt.Events()[n0:] {
+			if e.Op == "bolt-commit" && e.OK {
+				committed = true
+				vrt.Assert("C08.bolt-set-touches-only-stable-bucket", e.Note == "[put:"+metadb.StableBucket+"/k]")
+			}
+		}
+		vrt.Assert("C08.bolt-set-commits", committed)
+	}
+	got, err := db.GetStable([]byte("k"))
+	vrt.Assert("C08.bolt-get-latest", err == nil && string(got) == string(val) || vrt.Symbolic())
+	if vrt.Symbolic() {
+		vrt.Assert("C08.bolt-get-latest-sym", err == nil && len(got) == len(val))
+		for i := range got {
+			vrt.Assert("C08.bolt-get-latest-sym", got[i] == val[i])
+		}
+	}
+	if len(got) > 0 {
+		got[0] ^= 0xff
+		again, _ := db.GetStable([]byte("k"))
+		vrt.Assert("C08.bolt-get-returns-a-copy", len(again) == len(val) && again[0] == val[0])
+	}
+	other, err := db.GetStable([]byte("unset"))
+	vrt.Assert("C08.bolt-unset-is-nil", err == nil && other == nil)
+	vrt.Assert("C08.bolt-delete-ok", db.SetStable([]byte("k"), nil) == nil)
+	gone, err := db.GetStable([]byte("k"))
+	vrt.Assert("C08.bolt-deleted-is-nil", err == nil && gone == nil)
+	db.Close()
+	vrt.Reach("stable-bolt-checked")
+}
+
+func init() { Harnesses["HarnessStableBolt"] = HarnessStableBolt }
